@@ -38,9 +38,28 @@ Theorem C15_gate_line_denotes : ∀ g ops t ty fi (v : val),
 Proof. exact gate_line_denotes. Qed.
 Print Assumptions C15_gate_line_denotes.
 
-(* ---- whole-file statements ---- *)
-(* FULL statement for the reader (mirrored four-pass model).  Proved so far: see the theorems below about the closed
-   form; that bench_read computes the closed form is decided per generated case (Run_C15.agree). *)
+(* ---- whole-file theorems about the closed form bench_closed of the reader's result ---- *)
+(* for every well-formed line list (any line order, uses before definitions, outputs before definitions): *)
+(* exactly the declared inputs *)
+Theorem C15_closed_inputs : ∀ ls, wfb ls = true → inputs (bench_graph ls) = list_to_set (decl_inputs ls).
+Proof. exact closed_inputs. Qed.
+Print Assumptions C15_closed_inputs.
+
+(* every net computes what the text denotes: each consistent valuation of the circuit solves all gate equations of the text *)
+Theorem C15_closed_sound : ∀ ls, wfb ls = true → ∀ v, consistent (bench_graph ls) v → sat_bench ls v.
+Proof. exact closed_sound. Qed.
+Print Assumptions C15_closed_sound.
+
+(* each DFF line is a registered dff instance between its D net and its Q net *)
+Theorem C15_closed_dff : ∀ ls, wfb ls = true → ∀ name q d, (q, d) ∈ dff_lines ls → dff_between (bench_closed name ls) q d.
+Proof. exact closed_dff. Qed.
+Print Assumptions C15_closed_dff.
+
+(* FULL statement for the reader (mirrored four-pass model).  Proved: the three theorems above for the closed form.
+   Missing: (1) C15_read_is_closed_form_full (the mirrored reader computes the closed form) -- decided per generated
+   case by Run_C15.agree; (2) the outputs conjunct and the completeness direction (every solution of the text extends
+   to a consistent valuation) for the closed form -- decided per case by Run_C15.holds (exact output set; the text's own
+   evaluation equals the circuit's on every net for every valuation of inputs and Q nets). *)
 Definition C15_bench_read_denotes_full : Prop := ∀ name ls, wfb ls = true →
   ∃ C, bench_read name ls = Ok C
     ∧ inputs (c_g C) = list_to_set (decl_inputs ls) ∧ outputs (c_g C) = list_to_set (decl_outputs ls)
@@ -49,7 +68,9 @@ Definition C15_bench_read_denotes_full : Prop := ∀ name ls, wfb ls = true →
     ∧ (∀ q d, (q, d) ∈ dff_lines ls → dff_between C q d).
 Definition C15_read_is_closed_form_full : Prop := ∀ name ls, wfb ls = true → bench_read name ls = Ok (bench_closed name ls).
 
-(* FULL statement for the round trip, all set orders *)
+(* FULL statement for the round trip, all set orders.  Not proved as a whole: the per-line theorems cover its core (a
+   constant written as XOR(i,i)/XNOR(i,i) is read back as the constant, distinct operands are read back unchanged);
+   decided per generated circuit and recorded order by Run_C15.agree / holds. *)
 Definition C15_bench_roundtrip_full : Prop := ∀ C ord,
   lint_clean C → bb_free C → inputs (c_g C) ≠ ∅ → no_x (c_g C) → closed (c_g C) → names_ok (c_g C) →
   bench_write C ord ≠ BadOrder →
